@@ -146,12 +146,15 @@ pub fn replay_decode(case: &Value) {
 }
 
 /// Boundary lattice of picture dimensions: every power of two up to 2^15 with both neighbours,
-/// three times every power of two, the named formats, and 65535. Engines cross it with itself
+/// three times every power of two, the named formats, round decimal sizes, primes, and 65535. Engines cross it with itself
 /// and keep the pairs under their pixel cap, so that a fault tied to a joint condition on width
 /// and height (a product, a residue of the product, a size class) is inside the explored set
 /// rather than between two probes.
 pub fn dim_lattice() -> Vec<u16> {
     let mut v: Vec<u32> = vec![1, 2, 3, 5, 65535, 120, 144, 160, 176, 240, 288, 320, 352, 576, 704, 1152, 1408];
+    // round decimal video sizes and primes (values in general position)
+    v.extend([480, 600, 640, 720, 800, 1000, 1080, 1280, 1500, 1920, 10000, 50000]);
+    v.extend([13, 37, 101, 331, 1009, 2003, 4099, 10007, 20011, 40009, 65521]);
     for k in 3..=15u32 {
         v.extend([(1 << k) - 1, 1 << k, (1 << k) + 1]);
         if 3 << (k - 1) < 65536 {
